@@ -223,9 +223,10 @@ Fixpoint count_latest (skip : bool) (t : Z) (l : list tok) : nat :=
   match l with
   | TTsIn _ r :: l => if (t <? r) || (skip && (r =? t)) then 0%nat else S (count_latest skip t l)
   | _ => 0%nat end.
-Fixpoint count_buffer (Pm phc t : Z) (l : list tok) : nat :=
+Fixpoint count_buffer (skip : bool) (Pm phc t : Z) (l : list tok) : nat :=
   match l with
-  | TTsIn k r :: l => if (t <? Z.of_nat k * Pm + phc) || (t <? r) then 0%nat else S (count_buffer Pm phc t l)
+  | TTsIn k r :: l => if (t <? Z.of_nat k * Pm + phc) || ((t <? r) || (skip && (r =? t))) then 0%nat
+                      else S (count_buffer skip Pm phc t l)
   | _ => 0%nat end.
 Definition has_future (t : Z) (l : list tok) : bool :=
   existsb (fun x => match x with TTsIn _ r => t <? r | _ => false end) l.
@@ -236,7 +237,7 @@ Definition fire_exp_nb (c : nat) (l : local) (u : nat -> list tok) : option firi
   | Some (TSched k t) =>
       if has_future t (u (TsIn c)) then
         let cnt := if c_buffer (conn c)
-                   then count_buffer (n_period (node (c_out (conn c)))) (c_phase (conn c)) t (u (TsIn c))
+                   then count_buffer (c_skip (conn c)) (n_period (node (c_out (conn c)))) (c_phase (conn c)) t (u (TsIn c))
                    else count_latest (c_skip (conn c)) t (u (TsIn c)) in
         Some {| l' := l; cons := put (Next c) 1%nat (put (TsIn c) cnt none_c);
                 prod := put (ExpSel c) [TSel t cnt] none_p |}
